@@ -125,6 +125,7 @@ func VerifC18() {
 func VerifC18Catalogue() {
 	verifrt.RaceDetect(verifrt.Bound("race", 0) == 1)
 	verifrt.Preemptions(verifrt.Bound("preempt", 1))
+	verifrt.SchedDeterministic(verifrt.Bound("det", 0) == 1)
 	// the partitions' raft groups are passive (no goroutine of their own, nothing ever
 	// ready): what is explored is the interplay of the apply path, the allocator loop
 	// and the membership notifications
@@ -162,6 +163,17 @@ func VerifC18Catalogue() {
 		return
 	}
 	verifrt.Quiesce()
+	// the burst a restart replays: many membership changes applied back to back while the
+	// allocator is still busy with the first one (more than its notification buffer holds),
+	// with a second partition already being watched
+	burst := verifrt.Bound("burst", 0)
+	if burst > 0 {
+		if n.dm.process(create(3, 2)) != nil {
+			verifrt.Assert(false, "apply-never-fails")
+			return
+		}
+		verifrt.Quiesce()
+	}
 	catalogue := verifrt.Choose("catalogue", 3)
 	membership := verifrt.Choose("membership", 2)
 	done := make(chan int, 2)
@@ -182,6 +194,9 @@ func VerifC18Catalogue() {
 		n.dm.clusterConn.AddNode(2, "n2:0")
 		if membership == 1 {
 			n.dm.clusterConn.AddNode(3, "n3:0")
+		}
+		for b := 0; b < burst; b++ {
+			n.dm.clusterConn.AddNode(uint64(4+b), "n"+string(rune('a'+b))+":0")
 		}
 		done <- 2
 	}()
